@@ -203,6 +203,65 @@ theorem filterUnattachedRTX_keeps {cs : List CodecP} {p : CodecP} (hp : p ∈ cs
   rw [filterUnattachedRTX_eq]
   exact filtRev_keeps _ _ p (Or.inr ⟨by simpa using hp, hx⟩)
 
+/-! ### the apt value: `strconv.Atoi` and the range test of primaryPayloadTypeForRTXExists -/
+
+theorem aptPt_le {c : CodecP} {n : Nat} (h : aptPt c = some n) : n ≤ 255 := by
+  unfold aptPt at h
+  split at h
+  · cases h
+  · split at h
+    · cases h
+    · split at h
+      · cases h
+      · rename_i hn; cases h; omega
+
+/-- an unsigned digit string is read as its value; every value above 255 is out of range (reported as 256) -/
+theorem atoiPt_digits (ds : Str) (hne : ds ≠ []) (hd : ds.all isDigit = true) :
+    atoiPt ds = some (min (digitsVal ds) 256) := by
+  cases ds with
+  | nil => exact absurd rfl hne
+  | cons c cs =>
+    have hc : isDigit c = true := by
+      simp only [List.all_cons, Bool.and_eq_true] at hd; exact hd.1
+    have hplus : c ≠ '+' := by intro e; subst e; revert hc; decide
+    have hminus : c ≠ '-' := by intro e; subst e; revert hc; decide
+    unfold atoiPt
+    split
+    · rename_i h; cases h; exact absurd rfl hplus
+    · rename_i h; cases h; exact absurd rfl hminus
+    · simp [hd]
+
+/-- an RTX codec that stays in the list has an apt that `strconv.Atoi` reads as a number in 0..255 — whatever the
+    list: an absent, non-numeric, negative or too large apt (256 + pt, 2^64 + pt, …) never survives the filter -/
+theorem filtRev_rtx_has_apt : ∀ (rp suf : List CodecP) (c : CodecP), c ∈ filtRev rp suf →
+    c ∈ suf ∨ (isRTX c = true → ∃ n, aptPt c = some n) := by
+  intro rp
+  induction rp with
+  | nil => intro suf c h; exact Or.inl (by simpa [filtRev] using h)
+  | cons x rp ih =>
+    intro suf c h
+    unfold filtRev at h
+    split at h
+    · exact ih suf c h
+    · rename_i hu
+      rcases ih (x :: suf) c h with hmem | hx
+      · rcases List.mem_cons.mp hmem with hcx | hcs
+        · subst hcx
+          right
+          intro hrtx
+          obtain ⟨n, hn, _⟩ := not_unattached hrtx (by simpa using hu)
+          exact ⟨n, hn⟩
+        · exact Or.inl hcs
+      · exact Or.inr hx
+
+theorem filterUnattachedRTX_rtx_apt_in_range {cs : List CodecP} {c : CodecP} (hc : c ∈ filterUnattachedRTX cs)
+    (hx : isRTX c = true) : ∃ n, aptPt c = some n ∧ n ≤ 255 := by
+  rw [filterUnattachedRTX_eq] at hc
+  rcases filtRev_rtx_has_apt _ _ c hc with h | h
+  · cases h
+  · obtain ⟨n, hn⟩ := h hx
+    exact ⟨n, hn, aptPt_le hn⟩
+
 /-! ### RTPTransceiver.getCodecs -/
 
 /-- the preference loop of `getCodecs` -/
